@@ -1845,6 +1845,9 @@ func runCase(r *hx.Run, sub uint64, ops []string) {
 		k := strings.Fields(bare)[0]
 		if k == "crash" || k == "cfg" {
 			k = strings.Join(strings.Fields(bare)[:2], " ")
+			if k == "cfg fault" {
+				k = bare
+			}
 		}
 		r.Count("op:" + k)
 		if k == "mark" {
@@ -1852,8 +1855,10 @@ func runCase(r *hx.Run, sub uint64, ops []string) {
 		} else {
 			r.Count("ans:" + strings.Fields(ans)[0])
 		}
-		if i := strings.Index(ans, " c="); i >= 0 {
-			r.Count("calls:" + ans[i+3:])
+		for _, part := range strings.Split(ans, " // ") {
+			if i := strings.Index(part, " c="); i >= 0 {
+				r.Count("calls:" + part[i+3:])
+			}
 		}
 		if strings.HasPrefix(bare, "crash") || strings.HasPrefix(bare, "new") {
 			crashes++
@@ -1929,6 +1934,41 @@ func (d *dryRunner) shrink(ops []string, want string) []string {
 			cand := append(append([]string(nil), cur[:i]...), cur[i+1:]...)
 			if len(cand) > 0 && d.fails(cand)[want] {
 				cur, changed = cand, true
+			}
+		}
+	}
+
+	// within a request: drop single layers of a wrapper stack and single nested requests
+	for i := range cur {
+		f := strings.Fields(cur[i])
+		switch {
+		case len(f) == 3 && f[0] == "cfg" && f[1] == "stack":
+			for again := true; again; {
+				again = false
+				layers := strings.Split(strings.Fields(cur[i])[2], ",")
+				for j := len(layers) - 1; j >= 1 && len(layers) > 2; j-- {
+					cand := append([]string(nil), cur...)
+					cand[i] = "cfg stack " + strings.Join(append(append([]string(nil), layers[:j]...), layers[j+1:]...), ",")
+					if d.fails(cand)[want] {
+						cur, again = cand, true
+
+						break
+					}
+				}
+			}
+		case f[0] == "nest" || f[0] == "nestg":
+			for again := true; again; {
+				again = false
+				segs := strings.Split(cur[i], " / ")
+				for j := len(segs) - 1; j >= 1 && len(segs) > 2; j-- {
+					cand := append([]string(nil), cur...)
+					cand[i] = strings.Join(append(append([]string(nil), segs[:j]...), segs[j+1:]...), " / ")
+					if d.fails(cand)[want] {
+						cur, again = cand, true
+
+						break
+					}
+				}
 			}
 		}
 	}
